@@ -67,6 +67,7 @@ class Block:
         self.loops = {}         # k -> dict(binder, invariant[], iexb[], ensures[], decreases)
         self.proofs = []        # (dict(loop, at), text)
         self.substs = []
+        self.outlines = []
 
 
 def parse_template(text):
@@ -147,6 +148,9 @@ def parse_template(text):
                     elif key == 'proof':
                         meta = dict(kv.split('=', 1) for kv in w[1:])
                         cur = ('proof', meta)
+                    elif key == 'outline':
+                        om = dict(shlex.split(kv)[0].split('=', 1) if False else kv.split('=', 1) for kv in shlex.split(d[len('outline'):]))
+                        blk.outlines.append(om)
                     elif key == 'subst':
                         frm, to = d[len('subst'):].split('=>', 1)
                         blk.substs.append((frm.strip(), to.strip()))
@@ -266,8 +270,8 @@ def _body_rewrites(src, ed, lo, hi, loops, blk, log):
     rewrite_ctor_fn_value(src, ed, lo, hi, log)
     text = src.text
     for frm, to in blk.substs:
-        a0 = src.sig[lo].start
-        b0 = src.sig[hi - 1].end
+        a0 = ed.start
+        b0 = ed.end
         a = text.find(frm, a0, b0)
         if a < 0:
             log.append(f'R-subst (not applied, text absent) `{frm}`')
@@ -276,6 +280,65 @@ def _body_rewrites(src, ed, lo, hi, loops, blk, log):
             ed.replace(a, a + len(frm), to, 'R-subst')
             log.append(f'R-subst {src.rel}:{src.line_of(a)} `{frm}` => `{to}`')
             a = text.find(frm, a + len(frm), b0)
+
+
+def _apply_outlines(src, ed, lo, hi, blk, fname, log, canary):
+    """R7: cut a named struct-literal field initializer out into an external_body function of the listed arguments."""
+    sig = src.sig
+    segs = []
+    for om in blk.outlines:
+        field = om['field']
+        hit = None
+        for i in range(lo, hi - 1):
+            t = sig[i]
+            if t.kind == 'id' and t.text == field and sig[i + 1].text == ':' and sig[i + 2].text != ':' \
+                    and sig[i - 1].kind == 'p' and sig[i - 1].text in '{,':
+                hit = i
+                break
+        if hit is None:
+            raise LiftError(f"{src.rel}: outline: no `{field}:` initializer in lifted range")
+        j = hit + 2
+        while j < hi:
+            u = sig[j]
+            if u.kind == 'p' and u.text in '([{':
+                j = u.mate + 1
+                continue
+            if u.kind == 'p' and u.text in ',}':
+                break
+            j += 1
+        a, b = sig[hit + 2].start, sig[j - 1].end
+        expr = src.text[a:b]
+        args = [x.strip() for x in om['args'].split(',')]
+        params = om['params']
+        pnames = [p.split(':')[0].strip() for p in _split_top(params)]
+        body = expr
+        for arg, pn in zip(args, pnames):
+            if arg not in body:
+                raise LiftError(f"{src.rel}: outline `{field}`: argument `{arg}` not in the initializer")
+            body = body.replace(arg, pn)
+        oname = f"vx_outline_{blk.args.get('emit_impl', '')}_{fname}_{field}".replace('__canary', '')
+        ed.replace(a, b, f"{oname}({', '.join(args)})", 'R7')
+        if not canary:
+            log.append(f"R7 {src.rel}:{src.line_of(a)} initializer of `{field}` outlined into external_body fn {oname}")
+            segs.append(Seg(f"#[verifier::external_body]\nfn {oname}({params}) -> {om['ret']} {{\n    {body}\n}}\n", tag='R7'))
+    return segs
+
+
+def _split_top(s):
+    out, depth, cur = [], 0, ''
+    for ch in s:
+        if ch in '<([':
+            depth += 1
+        elif ch in '>)]':
+            depth -= 1
+        if ch == ',' and depth == 0:
+            out.append(cur)
+            cur = ''
+        else:
+            cur += ch
+    if cur.strip():
+        out.append(cur)
+    return out
 
 
 def lift_block(blk, log, meta, canary=False):
@@ -374,6 +437,7 @@ def lift_block(blk, log, meta, canary=False):
         raise LiftError(f'template: unknown lift kind {kind}')
 
     _body_rewrites(src, ed, lo, hi, loops, blk, log)
+    outline_segs = _apply_outlines(src, ed, lo, hi, blk, name, log, canary)
     _apply_loop_contracts(src, ed, [l for l in loops], blk, canary)
 
     contract = []
@@ -408,6 +472,7 @@ def lift_block(blk, log, meta, canary=False):
                 segs.append(Seg('proof {\n' + txt + '\n}\n', tag='proof'))
         segs.extend(ed.render())
         segs.append(Seg('\n}\n', tag='R5'))
+    segs.extend(outline_segs)
     segs.append(Seg('\n', tag='sep'))
     raw = src.text[sig[lo].start:sig[hi - 1].end]
     meta['functions'].append({
